@@ -185,6 +185,9 @@ func (a *Authenticator) receivePAP(data []byte) error {
 	identifier := data[1]
 	length := binary.BigEndian.Uint16(data[2:4])
 
+	if length < 4 {
+		return fmt.Errorf("PAP length shorter than header")
+	}
 	if int(length) > len(data) {
 		return fmt.Errorf("PAP length exceeds packet")
 	}
